@@ -94,6 +94,14 @@ def generate(rng, tier):
         lines = [rng.choice(ws_lines) for _ in range(rng.choice([6, 10]))] + ws_lines[:4]
         cases.append({"lines": [l.encode().hex() for l in lines], "pattern": pat.encode().hex(), "invert": i % 3 == 2,
                       "before": rng.choice([0, 0, 1]), "after": rng.choice([0, 0, 1]), "max": 0, "via": "cli"})
+    # lines that are empty or consist of white space only (no index prefix: the lines are pairwise distinct)
+    blank_lines = ["A1 start", "", "B2 ERROR", "   ", "C3", "\t", "D4 ERROR", " ", "E5 end"]
+    for i, (pat, inv) in enumerate([(".*", False), (".", True), ("^$", False), ("[A-Z]", True), ("ERROR", False), ("^\\s*$", False), ("\\S", True)] * (1 if tier == "quick" else 4)):
+        ls = blank_lines[:]
+        if i >= 7:
+            rng.shuffle(ls)
+        cases.append({"lines": [l.encode().hex() for l in ls], "pattern": pat.encode().hex(), "invert": inv,
+                      "before": rng.choice([0, 1, 2]), "after": rng.choice([0, 1, 2]), "max": rng.choice([0, 0, 2]), "via": "cli", "raw": True})
     ncli = 40 if tier == "quick" else 400
     for i in range(ncli):
         L = rng.choice([1, 3, 6, 10, 25])
@@ -117,6 +125,8 @@ def generate(rng, tier):
 
 def _cli(env, d, k, c):
     texts = ["%05d:%s" % (i, bytes.fromhex(l).decode()) for i, l in enumerate(c["lines"])]
+    if c.get("raw"):
+        texts = [bytes.fromhex(l).decode() for l in c["lines"]]       # distinct lines, some of them empty / white space only
     path = os.path.join(d, "g%05d.log" % k)
     with open(path, "wb") as f:
         body = "".join(t + "\n" for t in texts)
@@ -127,9 +137,9 @@ def _cli(env, d, k, c):
         args.insert(1, "--invert")
     rc, out, err = env.client("dgrep", args, timeout=60)
     idx, bad = [], []
-    for line in out.decode("utf-8", "replace").splitlines():
+    for line in out.decode("utf-8", "replace").split("\n")[:-1] if c.get("raw") else out.decode("utf-8", "replace").splitlines():
         try:
-            n = int(line.split(":", 1)[0])
+            n = texts.index(line) if c.get("raw") else int(line.split(":", 1)[0])
             if texts[n] != line:
                 raise ValueError
             idx.append(n)
@@ -155,6 +165,13 @@ def run_impl(cases, tier):
         vr, _ = vf.harness_parallel("grep", [dict(cases[i], before=0, after=0, max=0, invert=False) for i in cli])
         for i, o, v in zip(cli, outs, vr):
             o["verdicts"] = (v or {}).get("verdicts")
+            if cases[i].get("raw"):
+                # (the API harness prefixes every line with its index; the raw lines are judged by Python's re - only
+                # patterns on which re and RE2 trivially agree are used for these cases)
+                import re as _re2
+                pat = bytes.fromhex(cases[i]["pattern"]).decode()
+                o["verdicts"] = [_re2.search(pat, bytes.fromhex(l).decode()) is not None for l in cases[i]["lines"]]
+                v = None
             if v and "skip" in v:
                 o["skip"] = v["skip"]
             obs[i] = o
